@@ -63,6 +63,14 @@ func staticCallees(fn *ssa.Function) []*ssa.Function {
 						out = append(out, f)
 					}
 				}
+			default:
+				// a function mentioned as a value (returned by an accessor as the default of a seam, stored in a
+				// table): whoever obtains it may call it
+				for _, op := range in.Operands(nil) {
+					if f, ok := (*op).(*ssa.Function); ok {
+						out = append(out, f)
+					}
+				}
 			}
 		}
 	}
